@@ -12,7 +12,7 @@ LEVEL = ("Static structural conditions of schedule-independent determinism: no a
          "constant stream outside that image, every RNG-taking call in the worker gets that per-chain RNG, and every Settings::new_chain seeds "
          "the chain RNG from its rng argument only (R2); the worker closure captures only per-chain owned values, shared references to the "
          "Sync model/settings and the two per-chain Arc<Mutex<..>> created for this chain (R3); chains read no storage or progress state back "
-         "(R5); every computed draw is recorded exactly once whatever the timing of pause/resume commands (R6, shared with C12-R2). No order-sensitive iteration over default-hasher maps on the record / finalize / inspect paths (R4, shared with C14-R3): recorded values cannot depend on the per-process hash seed. Bit-identity of "
+         "(R5); every computed draw is recorded exactly once whatever the timing of pause/resume commands (R6, shared with C12-R2); the worker-thread count reaches nothing but the thread-pool size (R7). No order-sensitive iteration over default-hasher maps on the record / finalize / inspect paths (R4, shared with C14-R3): recorded values cannot depend on the per-process hash seed. Bit-identity of "
          "floating-point results as an observed fact is not decided.")
 EXPLANATION = ("Who-may-call over every MIR call site of the library crates against a table of ambient nondeterminism sources, static-item inventory, "
                "value-provenance (def-use trees) of RNG constructors and stream selectors, closure-capture inventory by type class; each zero-expected "
@@ -496,6 +496,87 @@ def r5(F, R):
     R.floor("C10-R5", 5)
 
 
+def _param_outside_pool(n, pname, is_root, argi):
+    """does the thread-count parameter occur in value tree n outside a ThreadPoolBuilder::num_threads(..) sub-tree?"""
+    if not isinstance(n, tuple):
+        return False
+    if n[0] == "call" and strip_generics(n[1]).endswith("ThreadPoolBuilder::num_threads"):
+        return False
+    if (n[0] == "upvar" and n[1] == pname) or (n[0] == "arg" and is_root and n[1] == argi):
+        return True
+    for y in n[1:]:
+        if isinstance(y, tuple) and _param_outside_pool(y, pname, is_root, argi):
+            return True
+        if isinstance(y, list) and any(_param_outside_pool(z, pname, is_root, argi) for z in y):
+            return True
+    return False
+
+
+def r7(F, R):
+    R.rule("C10-R7", "the number of worker threads influences nothing but the size of the thread pool: the `num_cores` parameter of Sampler::new is used only to "
+                     "compute the argument of ThreadPoolBuilder::num_threads")
+    bs = F.inherent_methods("sampler::Sampler", "new")
+    if len(bs) != 1:
+        R.missing("C10-R7", "Sampler::new")
+        return
+    b = bs[0]
+    idx = [i for i in range(1, b.arg_count + 1) if b.local_name(i) == "num_cores" or (b.local_ty(i) == "usize" and i == 4)]
+    if not idx:
+        R.missing("C10-R7", "usize thread-count parameter of Sampler::new")
+        return
+    pname = b.local_name(idx[0])
+    bodies = [b] + K.all_closures_of(F, b.path)
+    uses = []
+    for x in bodies:
+        for bb, t in x.calls():
+            for ai, a in enumerate(t["args"]):
+                v = x.value(a)
+                if any((n[0] == "upvar" and n[1] == pname) or (x.path == b.path and n[0] == "arg" and n[1] == idx[0]) for n in vt_walk(v)):
+                    uses.append((x, t, ai))
+        for bi, blk in enumerate(x.blocks):
+            tt = blk["term"]
+            if tt["k"] == "switch":
+                v = x.value(tt["discr"])
+                if _param_outside_pool(v, pname, x.path == b.path, idx[0]):
+                    uses.append((x, tt, -1))
+    badu = []
+    good = 0
+    for (x, t, ai) in uses:
+        if ai == -1:
+            badu.append("%s branches on it" % x.path)
+            continue
+        nm = strip_generics(t["callee"].get("path", ""))
+        v = x.value(t["args"][ai])
+
+        def outside(n, inside=False):
+            """does the parameter occur outside a num_threads(..) sub-tree?"""
+            if not isinstance(n, tuple):
+                return False
+            if n[0] == "call" and strip_generics(n[1]).endswith("ThreadPoolBuilder::num_threads"):
+                return False
+            if (n[0] == "upvar" and n[1] == pname) or (n[0] == "arg" and x.path == b.path and n[1] == idx[0]):
+                return True
+            for y in n[1:]:
+                if isinstance(y, tuple) and outside(y):
+                    return True
+                if isinstance(y, list) and any(outside(z) for z in y):
+                    return True
+            return False
+        if nm.endswith("ThreadPoolBuilder::num_threads"):
+            good += 1
+        elif not outside(v):
+            continue    # the builder object that already received num_threads(..)
+        elif t["callee"].get("closures") and x.path == b.path:
+            continue    # moved into the controller closure
+        else:
+            badu.append("%s passes it to %s" % (x.path.split("::")[-1], nm))
+    site = "%s @%s" % (b.path, b.loc())
+    if good >= 1 and not badu:
+        R.ok("C10-R7", b.path + ":num_cores", site, "`%s` reaches only ThreadPoolBuilder::num_threads (%d use)" % (pname, good))
+    else:
+        R.bad("C10-R7", b.path + ":num_cores", site, "the worker-thread count `%s` is also used elsewhere: %s - results may depend on the number of threads" % (pname, badu))
+
+
 def run(F, R, config=None):
     P = K.positive_facts()
     r1(F, R, P)
@@ -503,6 +584,7 @@ def run(F, R, config=None):
         r2(F, R)
         r3(F, R)
         r5(F, R)
+        r7(F, R)
         # what is recorded must not depend on when control commands arrive: every computed draw is recorded exactly once (shared with C12-R2)
         from . import c12
         w = worker_body(F)
@@ -524,6 +606,6 @@ def features(F):
     return []
 
 
-FEATURE_RULES = {"C10-R2": "parallel", "C10-R3": "parallel", "C10-R5": "parallel", "C10-R6": "parallel"}
+FEATURE_RULES = {"C10-R2": "parallel", "C10-R3": "parallel", "C10-R5": "parallel", "C10-R6": "parallel", "C10-R7": "parallel"}
 CONFIGS = ["all", "default", "nodefault"]
 SELFTEST = True
